@@ -46,7 +46,37 @@ TrCommit   == Is({"commit"}) /\ ~IsFin /\ (CommitOK(Ev) \/ CommitFail(Ev))
 TrRollback == Is({"rollback"}) /\ ~IsFin /\ Rollback(Ev)
 TrClose    == Is({"close"}) /\ Close(Ev)
 TrOpen     == Is({"open"}) /\ Open(Ev)
-TrMerge    == Is({"merge"}) /\ Merge(Ev)
+
+\* Merge (C15): whether it succeeds or fails, the running process and a
+\* reopen of the directory serve what they served before.  A merge event
+\* carries the observation of the process (o) and of a shadow reopen (so)
+\* taken right after the call.
+F_MergeDs == "F-C15-1"
+\* the deviation is admitted only when the log holds list records, or
+\* when memory and log already disagree on the sets (the consequence of the
+\* SMove finding F-C06-2: Merge filters the log by what is in memory), or
+\* when the merge failed half-way on a database with sorted sets
+HasRecs(ds) == \E i \in 1..Len(log) : log[i].r.ds = ds
+HasDsRecs ==
+  \/ HasRecs("ls")
+  \/ F_SMove \in Dev /\ ObsSt(mem) # ObsSt(Replay(log))
+  \/ Ev.err /\ HasRecs("zs")
+MergeKeeps ==
+  /\ ~Ev.operr /\ ObsMatches(ObsOf(Ev.o), mem, Ev.t0, Ev.t1)
+  /\ ~Ev.serr /\ ObsMatches(ObsOf(Ev.so), Replay(log), Ev.t0, Ev.t1)
+TrMerge ==
+  /\ Is({"merge"}) /\ status = "open" /\ tx.st = "none"
+  /\ IF "o" \notin DOMAIN Ev THEN Merge(Ev)            \* bare merge call, judged by later events
+     ELSE \/ MergeKeeps /\ Merge(Ev)
+          \* known finding: Merge of list/set/sorted-set records re-applies
+          \* operation records; the rest of the history is not judged
+          \/ /\ ~MergeKeeps /\ F_MergeDs \in Dev /\ HasDsRecs
+             /\ status' = "lost" /\ notes' = notes \cup {F_MergeDs}
+             /\ UNCHANGED <<mem, log, tx>>
+
+TrLost ==
+  /\ l <= Len(TLog) /\ status = "lost" /\ Ev.op # "reset" /\ l' = l + 1
+  /\ UNCHANGED vars
 
 \* full observation of the running database, outside any transaction
 TrObs ==
@@ -80,7 +110,7 @@ TrCrash ==
 
 TraceNext ==
   /\ \/ TrReset \/ TrBegin \/ TrRead \/ TrMutate \/ TrFinished \/ TrCommit \/ TrRollback
-     \/ TrClose \/ TrOpen \/ TrMerge \/ TrObs \/ TrCopyObs \/ TrCrash
+     \/ TrClose \/ TrOpen \/ TrMerge \/ TrObs \/ TrCopyObs \/ TrCrash \/ TrLost
   /\ noteLines' = IF notes' = notes THEN noteLines ELSE noteLines \cup {<<l, notes' \ notes>>}
 
 TraceSpec == TraceInit /\ [][TraceNext]_tvars
